@@ -10,6 +10,7 @@ import (
 	"time"
 
 	"github.com/koron-go/z80"
+	"github.com/koron-go/z80/verifharness/ref"
 	"github.com/koron-go/z80/verifharness/stats"
 	"pgregory.net/rapid"
 )
@@ -19,8 +20,10 @@ import (
 // for this property).
 
 type c13Case struct {
-	Loop    string   `json:"loop,omitempty"` // jr | jp | nops | ldir | otir | djnz  (non-terminating), or "" with Prog
+	Loop    string   `json:"loop,omitempty"` // jr | jp | nops | ldir | otir | djnz | jpix | ldra | ldirix | body (non-terminating), or "" with Prog
 	Prog    *program `json:"program,omitempty"`
+	Body    []int    `json:"body,omitempty"` // loop "body": straight-line bytes, followed by JP start
+	R       int      `json:"r"`              // initial refresh register
 	PC      uint16   `json:"pc"`
 	Instant string   `json:"instant"` // pre | hook | timer | timeout | never
 	N       int      `json:"n"`       // hook: access count; timer/timeout: microseconds
@@ -33,6 +36,7 @@ type c13Rig struct {
 	twin  z80.CPU
 	// poisoned: makes the machine end the goroutine that runs a hung Run
 	poisoned int32
+	hungMsg  string
 }
 
 func (r *c13Rig) load(c *c13Case) {
@@ -62,6 +66,15 @@ func (r *c13Rig) load(c *c13Case) {
 		put(0x21, 0x00, 0x40, 0x01, 0x07, 0x00, 0xED, 0xB3, 0x18, 0xF6)
 	case "djnz": // LD B,0; DJNZ $; JR start
 		put(0x06, 0x00, 0x10, 0xFE, 0x18, 0xFA)
+	case "jpix": // JP (IX) onto itself: only prefixed opcode fetches
+		put(0xDD, 0xE9)
+	case "ldra": // LD A,1; LD R,A; JR start: R is reloaded every turn
+		put(0x3E, 0x01, 0xED, 0x4F, 0x18, 0xFA)
+	case "ldirix": // LDIR (BC=0: 65536 elements) ; JP (IX) back: prefixed fetches only
+		put(0xED, 0xB0, 0xDD, 0xE9)
+	case "body":
+		put(toBytes(c.Body)...)
+		put(0xC3, uint8(c.PC), uint8(c.PC>>8))
 	}
 }
 
@@ -75,6 +88,10 @@ func (r *c13Rig) initCPU(c *c13Case, cpu *z80.CPU, m *progMachine) {
 	m.reset(&r.base, 7)
 	*cpu = z80.CPU{Memory: m, IO: m}
 	cpu.PC, cpu.SP = c.PC, 0x8000
+	cpu.IX, cpu.IY = c.PC, c.PC
+	cpu.HL.SetU16(0x4000)
+	cpu.DE.SetU16(0x5000)
+	cpu.IR.Lo = uint8(c.R)
 }
 
 type c13Outcome struct {
@@ -84,12 +101,20 @@ type c13Outcome struct {
 	err   error
 }
 
-func (r *c13Rig) run(c *c13Case) c13Outcome {
+func (r *c13Rig) run(c *c13Case) c13Outcome { return r.runCtx(c, context.Background()) }
+
+// runCtx: parent is the context Run's context derives from; for the instant "never" Run gets parent
+// itself, so that nothing the harness does can wake a watcher goroutine Run may have left behind.
+func (r *c13Rig) runCtx(c *c13Case, parent context.Context) c13Outcome {
 	var o c13Outcome
+	if r.hungMsg != "" {
+		// a Run call of this process already failed to return: do not wait another 20 s per shrink attempt
+		o.msg = r.hungMsg
+		return o
+	}
 	r.load(c)
 	r.initCPU(c, &r.cpu, &r.m)
 	atomic.StoreInt32(&r.poisoned, 0)
-	parent := context.Background()
 	var ctx context.Context
 	var cancel context.CancelFunc
 	var cancelledAt int64 // unix nanos, 0 = not yet
@@ -99,6 +124,8 @@ func (r *c13Rig) run(c *c13Case) c13Outcome {
 		d := time.Duration(c.N) * time.Microsecond
 		ctx, cancel = context.WithTimeout(parent, d)
 		atomic.StoreInt64(&cancelledAt, time.Now().Add(d).UnixNano())
+	case "never":
+		ctx, cancel = parent, func() {}
 	default:
 		ctx, cancel = context.WithCancel(parent)
 	}
@@ -149,6 +176,7 @@ func (r *c13Rig) run(c *c13Case) c13Outcome {
 			return o
 		}
 		o.msg = fmt.Sprintf("Run did not return within 20 s although its context was cancelled (%s)", c.Instant)
+		r.hungMsg = o.msg
 		return o
 	}
 	returned := time.Now().UnixNano()
@@ -157,13 +185,9 @@ func (r *c13Rig) run(c *c13Case) c13Outcome {
 	}
 	o.err = err
 	ctxErr := ctx.Err()
-	terminating := c.Prog != nil
 	switch {
 	case err == nil:
-		if !terminating {
-			o.msg = "Run returned nil on a program that never halts"
-			return o
-		}
+		// natural end: decided below (the twin must have executed a HALT at this very point)
 	case err == ctxErr:
 		// fine
 	default:
@@ -197,6 +221,10 @@ func (r *c13Rig) run(c *c13Case) c13Outcome {
 		o.msg = fmt.Sprintf("Run stopped after %d accesses, which is inside Step %d (Steps end at %d accesses)", target, steps, r.tm.nAcc)
 		return o
 	}
+	if err == nil && !r.twin.HALT {
+		o.msg = fmt.Sprintf("Run returned nil after %d Steps although no HALT was executed", steps)
+		return o
+	}
 	if r.cpu.States != r.twin.States {
 		g, w := stFromStates(r.cpu.States), stFromStates(r.twin.States)
 		o.msg = fmt.Sprintf("state after cancelled Run differs from %d whole Steps: %s", steps, fmtStateDiff(&g, &w))
@@ -209,6 +237,65 @@ func (r *c13Rig) run(c *c13Case) c13Outcome {
 	o.mid = err != nil && steps >= 1
 	return o
 }
+
+// haltOrBreak runs a three-instruction program to its HALT (or to a breakpoint in front of it)
+// under a context that is never cancelled.
+func (r *c13Rig) haltOrBreak(ctx context.Context, bp bool) c13Outcome {
+	for i := range r.base {
+		r.base[i] = 0
+	}
+	r.base[0x0102] = 0x76
+	r.m.reset(&r.base, 1)
+	r.cpu = z80.CPU{Memory: &r.m, IO: &r.m}
+	r.cpu.PC = 0x0100
+	var want error
+	if bp {
+		r.cpu.BreakPoints = map[uint16]struct{}{0x0101: {}}
+		want = z80.ErrBreakPoint
+	}
+	if err := r.cpu.Run(ctx); err != want {
+		return c13Outcome{msg: fmt.Sprintf("Run returned %v want %v", err, want)}
+	}
+	return c13Outcome{}
+}
+
+// genLoopBody draws a straight-line loop body from the implemented encodings, leaving out everything
+// that transfers control, halts, or touches the stack pointer (the body is followed by JP start).
+// Stores may still hit the loop itself; the verdict does not depend on the loop staying intact
+// (a nil return is accepted exactly when the Step-driven twin executed a HALT at the same point).
+func genLoopBody(t *rapid.T) []int {
+	var body []int
+	n := rapid.IntRange(1, 6).Draw(t, "bodyLen")
+	for len(body) < 3*n {
+		ei := rapid.IntRange(0, len(loopBodyEncodings)-1).Draw(t, "bodyEnc")
+		e := &allEncodings[loopBodyEncodings[ei]]
+		ops := [3]uint8{rapid.Uint8().Draw(t, "o1"), rapid.Uint8().Draw(t, "o2"), rapid.Uint8().Draw(t, "o3")}
+		b := e.bytes(ops)
+		b = b[:modelLen(b)]
+		body = append(body, toInts(b)...)
+		if len(body) > 40 {
+			break
+		}
+	}
+	return body
+}
+
+var loopBodyEncodings = func() []int {
+	skip := map[string]bool{"JP": true, "JP cc": true, "JR": true, "JR cc": true, "DJNZ": true, "CALL": true, "CALL cc": true, "RET": true, "RET cc": true,
+		"RST": true, "HALT": true, "JP (HL)": true, "RETN": true, "RETI": true, "LD SP,HL": true, "POP": true, "PUSH": true, "EX (SP),HL": true}
+	var out []int
+	for i := range allEncodings {
+		e := &allEncodings[i]
+		var s refState
+		in := ref.Step(&s, &probeBus{e.bytes([3]uint8{})})
+		if skip[in.Class] || (len(e.pre) == 1 && (e.pre[0] == 0x31 || e.pre[0] == 0x33 || e.pre[0] == 0x3B)) ||
+			(len(e.pre) == 2 && e.pre[0] == 0xED && e.pre[1] == 0x7B) {
+			continue
+		}
+		out = append(out, i)
+	}
+	return out
+}()
 
 func init() {
 	replayers["cancel"] = func(prop string, raw json.RawMessage) (string, error) {
@@ -233,6 +320,9 @@ func TestC13(t *testing.T) {
 	batch := env.Pick(40, 200)
 	rapid.Check(t, func(t *rapid.T) {
 		base := runtime.NumGoroutine()
+		// contexts that stay alive until the goroutine accounting is done
+		batchCtx, batchCancel := context.WithCancel(context.Background())
+		defer batchCancel()
 		for i := 0; i < batch; i++ {
 			var c c13Case
 			kind := rapid.IntRange(0, 7).Draw(t, "program")
@@ -240,8 +330,13 @@ func TestC13(t *testing.T) {
 				c.Prog = genProgram(t, 8)
 				c.Instant = rapid.SampledFrom([]string{"pre", "hook", "timer", "timeout", "never", "never"}).Draw(t, "instant")
 			} else {
-				c.Loop = []string{"jr", "jp", "nops", "ldir", "otir", "djnz"}[kind]
+				c.Loop = rapid.SampledFrom([]string{"jr", "jp", "nops", "ldir", "otir", "djnz", "jpix", "ldra", "ldirix", "body", "body"}).Draw(t, "loop")
 				c.PC = rapid.SampledFrom([]uint16{0x0100, 0xFFFE, 0x0000, 0x7000}).Draw(t, "pc")
+				c.R = int(rapid.OneOf(rapid.SampledFrom([]uint8{0, 1, 0x7F, 0x80, 0xFF}), rapid.Uint8()).Draw(t, "r"))
+				if c.Loop == "body" {
+					c.PC = 0x0100
+					c.Body = genLoopBody(t)
+				}
 				c.Instant = rapid.SampledFrom([]string{"pre", "hook", "hook", "timer", "timeout"}).Draw(t, "instant")
 			}
 			switch c.Instant {
@@ -250,7 +345,11 @@ func TestC13(t *testing.T) {
 			case "timer", "timeout":
 				c.N = rapid.IntRange(0, 2000).Draw(t, "micros")
 			}
-			o := rig.run(&c)
+			parent := context.Background()
+			if i%2 == 1 {
+				parent = batchCtx
+			}
+			o := rig.runCtx(&c, parent)
 			col.Eval(1)
 			if o.msg != "" {
 				violation(t, "C13", "cancel", c, "context error, whole Steps, bounded delay", o.msg)
@@ -265,7 +364,8 @@ func TestC13(t *testing.T) {
 				col.Label("return:deadline")
 			}
 			if o.mid {
-				h := stats.Hash(uint64(kind), uint64(len(c.Instant)), uint64(c.N), uint64(o.steps), uint64(c.PC))
+				h := stats.Hash(uint64(kind), uint64(len(c.Instant)), uint64(c.N), uint64(o.steps), uint64(c.PC), uint64(c.R), uint64(len(c.Loop)), uint64(len(c.Body)))
+				col.Label("loop:" + c.Loop)
 				col.Distinct(h)
 				switch {
 				case o.steps < 100:
@@ -280,12 +380,29 @@ func TestC13(t *testing.T) {
 				}
 			}
 		}
-		// goroutine accounting: every watcher must be gone
+		// every return path once more with contexts nobody cancels: natural HALT, breakpoint, cancel by child context
+		for i := 0; i < 24; i++ {
+			c := c13Case{Loop: "jr", PC: 0x0100, Instant: "hook", N: 1 + i}
+			if i%3 == 0 {
+				c = c13Case{Loop: "nops", PC: 0x0100, Instant: "never"}
+			}
+			var o c13Outcome
+			if c.Instant == "never" {
+				o = rig.haltOrBreak(batchCtx, i%2 == 0)
+			} else {
+				o = rig.runCtx(&c, batchCtx)
+			}
+			col.Eval(1)
+			if o.msg != "" {
+				violation(t, "C13", "cancel", c, "context error, whole Steps, bounded delay", o.msg)
+			}
+		}
+		// goroutine accounting: every watcher must be gone although batchCtx is still alive
 		deadline := time.Now().Add(10 * time.Second)
-		for runtime.NumGoroutine() > base+4 && time.Now().Before(deadline) {
+		for runtime.NumGoroutine() > base+2 && time.Now().Before(deadline) {
 			time.Sleep(2 * time.Millisecond)
 		}
-		if n := runtime.NumGoroutine(); n > base+4 {
+		if n := runtime.NumGoroutine(); n > base+2 {
 			violation(t, "C13", "cancel", map[string]any{"batch": batch}, "goroutine count back to baseline after a batch of Run calls",
 				fmt.Sprintf("%d goroutines before a batch of %d Run calls, %d still alive 10 s after it", base, batch, n))
 		}
